@@ -78,3 +78,24 @@ pub use crate::crypto::verif_hooks_crypto as crypto;
 
 pub use crate::ln::peer_channel_encryptor::verif_hooks_c15 as encryptor;
 pub use crate::ln::peer_channel_encryptor::{MessageBuf, NextNoiseStep, PeerChannelEncryptor};
+
+// ---------------------------------------------------------------------------------------------
+// Update protocol (per-HTLC states, balances, fee update state) and commitments seen by signers
+// ---------------------------------------------------------------------------------------------
+
+pub use crate::ln::channel::verif_hooks_c01::{ChanDump, HtlcDump};
+#[cfg(feature = "std")]
+pub use crate::util::test_channel_signer::verif_hooks_commit_log as commit_log;
+
+/// The [`ChanDump`] of the funded channel `channel_id` with `counterparty`, plus the
+/// `channel_keys_id` of its signer, if that channel exists in `node` and is funded.
+#[cfg(feature = "std")]
+pub fn chan_dump(
+	node: &crate::ln::functional_test_utils::TestChannelManager<'_, '_>,
+	counterparty: &bitcoin::secp256k1::PublicKey, channel_id: &crate::ln::types::ChannelId,
+) -> Option<([u8; 32], ChanDump)> {
+	let per_peer_state = node.per_peer_state.read().unwrap();
+	let peer_state = per_peer_state.get(counterparty)?.lock().unwrap();
+	let chan = peer_state.channel_by_id.get(channel_id)?.as_funded()?;
+	Some((chan.context.channel_keys_id, chan.verif_chan_dump()))
+}
